@@ -42,9 +42,16 @@ if os.path.exists('/verif/ledger.json'):
     old = json.load(open('/verif/ledger.json'))
 if sys.argv[1:]:
     # partial update: keep the entries of other modules
-    fns = {e['fn'] for e in ledger.values()}
+    # (deductive entries of a regenerated function are replaced; frame entries are replaced only by a `frames` run)
+    fns = {e['fn'] for e in ledger.values() if e['sha'] != 'frame'}
+    redo_frames = 'frames' in sys.argv[1:]
     for k, e in old.items():
-        if e['fn'] not in fns:
+        if k in ledger:
+            continue
+        if e['sha'] == 'frame':
+            if not redo_frames:
+                ledger[k] = e
+        elif e['fn'] not in fns:
             ledger[k] = e
 ledger = {k: v for k, v in ledger.items() if v['proved']}
 json.dump(ledger, open('/verif/ledger.json', 'w'), indent=1, sort_keys=True)
